@@ -15,6 +15,8 @@ pub mod refsem;
 pub mod judge;
 pub mod gen01;
 pub mod rewrite;
+pub mod gen03;
+pub mod gen04;
 pub mod gen06;
 pub mod gen17;
 
